@@ -9,6 +9,7 @@ import Driver.SPEngine
 import Driver.PTEngine
 import Driver.PXEngine
 import Driver.COEngine
+import Driver.TREngine
 /-! Line-protocol driver: one operation per input line; for every line the driver prints the
     model's observations (lines starting with `O `) followed by a line containing a single `.`.
     Core Lean only (linked as an executable). -/
@@ -18,6 +19,7 @@ structure DState where
   ps : Quorum.PeerList := []
   hg : HGState := {}
   cont : ContState := {}
+  tr : Babble.Trust.St := { peers := [], genesis := [], validators := [], reason := [] }
 
 instance : Inhabited DState := ⟨{}⟩
 
@@ -35,6 +37,8 @@ def stepLine (st : DState) (toks : List String) : DState × List String :=
   | "PT" :: rest => (st, ptStep rest)
   | "PX" :: rest => (st, pxStep rest)
   | "CO" :: rest => (st, coStep rest)
+  | "TR" :: rest => let (t, obs) := trStep st.tr rest
+                    ({ st with tr := t }, obs)
   | "RI" :: rest => let (c, obs) := riStep st.cont rest
                     ({ st with cont := c }, obs)
   | "LRU" :: rest => let (c, obs) := lruStepD st.cont rest
